@@ -334,6 +334,15 @@ func runCaseRaw(c Case, dir string, res *lib.Result) string {
 			r := doOp(ctx, rc, base, op)
 			res.Count("ocidir:" + op.K + ":" + r.kind)
 			obs = append(obs, r.coq())
+			// the index stays a valid OCI index after every operation: "manifests" is an array (an empty one when nothing is left)
+			if ib, e := os.ReadFile(filepath.Join(lay, "index.json")); e == nil {
+				var raw map[string]json.RawMessage
+				if json.Unmarshal(ib, &raw) != nil {
+					res.Fail("index-not-valid", fmt.Sprintf("after op %d %+v index.json is not a JSON object", i, op), c)
+				} else if m := strings.TrimSpace(string(raw["manifests"])); !strings.HasPrefix(m, "[") {
+					res.Fail("index-not-valid", fmt.Sprintf("after op %d %+v index.json has \"manifests\": %s (an OCI index lists its manifests in an array)", i, op, m), c)
+				}
+			}
 			// any layout, also a foreign one with full image names or duplicates: a tag that was just pushed resolves to
 			// the manifest that was pushed (C06_push_then_get)
 			if op.K == "puttag" && r.kind == "ok" {
